@@ -569,8 +569,8 @@ def corpus_inputs(chk):
     thorough = chk.tier == "thorough"
     per_font = 40 if thorough else 1
     fonts = [p for p in common.corpus_fonts((".ttf", ".otf")) if os.path.getsize(p) < 3_000_000]
-    if not thorough:   # quick: a seeded half of the fonts, one glyph each
-        fonts = sorted(chk.rng.sample(fonts, len(fonts) // 2))
+    if not thorough:   # quick: a seeded third of the fonts, one glyph each
+        fonts = sorted(chk.rng.sample(fonts, len(fonts) // 3))
     jobs = [(p, per_font, chk.seed, 220 if thorough else 60) for p in fonts]
     res = common.pmap(_font_streams, jobs)
     out = []
@@ -697,26 +697,25 @@ def run(chk):
                 "distinct by the call sequence; non-trivial = the outline has a contour with at least one segment "
                 "(two points), i.e. it draws something")
     # ---- (M) + generation -----------------------------------------------------------
-    r = chk.tlc("MC_PenProto", cfg="MC_PenProto", label="MC_PenProto exhaustive", timeout=900,
+    cfg = "MC_PenProto_thorough" if thorough else "MC_PenProto"
+    r = chk.tlc("MC_PenProto", cfg=cfg, label="MC_PenProto exhaustive", timeout=2400 if thorough else 900,
                 env={"JAVA_TOOL_OPTIONS": "-Xss32m"})
     outlines = gen_outlines(r.stdout)
     n_exh = len(outlines)
-    chk.log("MC_PenProto: %d states, %d complete outlines, laws hold, %.0fs" % (r.distinct, n_exh, r.wall))
+    chk.log("%s: %d states, %d complete outlines, laws hold, %.0fs" % (cfg, r.distinct, n_exh, r.wall))
     if n_exh < 1000:
         raise MachineryError("generator produced only %d outlines" % n_exh)
     # deeper behaviours of the same machine by simulation (bigger lattice, more points, longer sequences)
     sim = chk.tlc("MC_PenProto", cfg="MC_PenProto_sim", label="MC_PenProto simulate",
-                  simulate="num=%d" % (20000 if thorough else 1200), depth=30, workers=1,
+                  simulate="num=%d" % (8000 if thorough else 1200), depth=30, workers=1,
                   timeout=1500 if thorough else 300, env={"JAVA_TOOL_OPTIONS": "-Xss32m"})
     known = set(json.dumps(o, separators=(",", ":")) for o in outlines)
     deep = [o for o in gen_outlines(sim.stdout) if json.dumps(o, separators=(",", ":")) not in known]
     chk.log("simulation: %d further outlines, %.0fs" % (len(deep), sim.wall))
-    # quick replays a seeded sample of the enumerated set, thorough all of it
-    if thorough:
-        chosen = list(range(n_exh))
-    else:
-        chosen = sorted(chk.rng.sample(range(n_exh), min(n_exh, 3200)))
-        deep = sorted(chk.rng.sample(deep, min(len(deep), 1800)), key=lambda o: json.dumps(o))
+    # (R) replays a seeded sample of the enumerated set and of the simulated one
+    n_take, n_deep = (12000, 8000) if thorough else (2800, 1600)
+    chosen = sorted(chk.rng.sample(range(n_exh), min(n_exh, n_take)))
+    deep = sorted(chk.rng.sample(deep, min(len(deep), n_deep)), key=lambda o: json.dumps(o))
     level = 2 if thorough else 0
     items = [(12, outlines[i], {"src": "exhaustive", "n": i}, i + chk.seed, level) for i in chosen]
     items += [(12, o, {"src": "simulation", "n": i}, i + chk.seed, level) for i, o in enumerate(deep)]
@@ -752,8 +751,8 @@ def run(chk):
     chk.notes["outlines"] = {"enumerated": n_exh, "replayed_from_enumeration": len(chosen), "simulation": len(deep),
                              "corpus": len(ctraces)}
     chk.exhaustive = False
-    chk.notes["exhaustive_part"] = ("MC_PenProto.cfg: every valid call sequence within the bounds enumerated and checked against "
-                                    "the laws; (R) replays %s of them" % ("all" if thorough else "a seeded sample of %d" % len(chosen)))
+    chk.notes["exhaustive_part"] = ("%s.cfg: every valid call sequence within the bounds enumerated and checked against "
+                                    "the laws; (R) replays a seeded sample of %d of them" % (cfg, len(chosen)))
     chk.assumptions += [
         "coordinates on the 1/12 grid (lattice) or 1/2 grid (fonts); recorded floats are mapped to the grid with 1e-6 tolerance, off-grid values are sent as a sentinel and rejected by the geometry clauses",
         "smooth flags, point names, identifiers are not geometry and are ignored",
